@@ -19,7 +19,7 @@ import (
 
 type params struct {
 	Calls    int      `json:"calls"`
-	Env      []string `json:"env"`       // "ack:1", "cancel:1", "close", "result:1"
+	Env      []string `json:"env"`       // "ack:1", "cancel:1", "deadline:1" (the call's context has a deadline that expires), "close", "result:1"
 	SendFail bool     `json:"send_fail"` // the first transmission of call 1 may fail (environment deviation)
 	SendCtx  bool     `json:"send_ctx"`  // the transport refuses to transmit once the call's context is cancelled (as mtproto's writer does)
 }
@@ -61,6 +61,10 @@ func body(p params, o *sx.Obs) {
 	for id := 1; id <= p.Calls; id++ {
 		id := id
 		ctx, cancel := vctx.WithCancel(vctx.Background())
+		if has(p.Env, fmt.Sprintf("deadline:%d", id)) {
+			// cancellation by deadline: the virtual timer fires when everything else is blocked, or earlier as a deviation
+			ctx, cancel = vctx.WithTimeout(vctx.Background(), 30*time.Second)
+		}
 		cancels[id] = cancel
 		g.Go(fmt.Sprintf("call%d", id), func() {
 			err := eng.Do(ctx, rpc.Request{MsgID: int64(id), SeqNo: int32(2*id - 1), Input: payload{int32(id)}, Output: output{}})
@@ -70,7 +74,8 @@ func body(p params, o *sx.Obs) {
 				kind = "nil"
 			case errors.Is(err, rpc.ErrEngineClosed):
 				kind = "engine-closed"
-			case err == context.Canceled:
+			case err == context.Canceled || errors.Is(err, context.DeadlineExceeded):
+				// (a deadline error can only stem from the call's own context: ForceClose cancels, it never times out)
 				// Do returns the caller's ctx.Err() itself for a cancelled invocation; an acknowledged
 				// request cut off by ForceClose gets a *wrapped* cancellation ("engine forcibly closed")
 				kind = "canceled"
@@ -113,6 +118,8 @@ func body(p params, o *sx.Obs) {
 				b.PutInt32(1)
 				_ = eng.NotifyResult(int64(id), &b)
 			})
+		case "deadline":
+			// nothing to do: the deadline timer of the call's context is the event
 		case "cancel":
 			g.Go(name, func() {
 				o.Log("cancel %d", id)
@@ -181,7 +188,7 @@ func check(p params, o *sx.Obs, x *vsched.Sched) kit.Result {
 			}
 		}
 		if kind == "" {
-			if closing || has(p.Env, fmt.Sprintf("cancel:%d", id)) || has(p.Env, fmt.Sprintf("result:%d", id)) || failed {
+			if closing || has(p.Env, fmt.Sprintf("cancel:%d", id)) || has(p.Env, fmt.Sprintf("deadline:%d", id)) || has(p.Env, fmt.Sprintf("result:%d", id)) || failed {
 				return kit.Bad("caller-stranded", "call %d never returned although the engine was closed / the call cancelled / answered; blocked: %v", id, x.Blocked)
 			}
 			out = append(out, fmt.Sprintf("%d:waiting", id))
@@ -234,6 +241,8 @@ func scenarios() []params {
 		{1, []string{"ack:1", "cancel:1"}, false, true},
 		{1, []string{"cancel:1", "close"}, false, true},
 		{1, []string{"cancel:1", "result:1"}, false, false},
+		{1, []string{"deadline:1"}, false, false},
+		{1, []string{"ack:1", "deadline:1"}, false, true},
 		{2, []string{"cancel:1", "close"}, false, false},
 		{2, []string{"ack:2", "cancel:1", "close"}, false, true},
 	}
